@@ -47,7 +47,7 @@ Subsets == {{kName, uA}, {uA, kCount, uB}, {kTags, uC, uA, kName}, {uA, uB, uC},
             {uLower, uA}, {uUpper, uLower, kTags}, {uLower, kName, uUpper}, {uPct, kName}}
 DocOf(p) == Concat([i \in 1..Len(p) |-> p[i] \o <<LF>>])
 Sets == {[Name |-> <<99, 104, 97, 110, 103, 101, 100>>, Count |-> 9, Tags |-> <<<<122>>>>],
-         [Name |-> <<>>, Count |-> 0, Tags |-> <<>>]}
+         [Name |-> <<>>, Count |-> 0, Tags |-> <<>>], [Name |-> <<110>>, Count |-> 1, Tags |-> <<>>]}
 Pass == UNION {{[k |-> "passthru", doc |-> DocOf(p), set |-> s] : p \in Perms(S), s \in Sets} : S \in Subsets}
 
 \* required fields absent on input
